@@ -447,6 +447,16 @@ func genProject(r *rng.R, nPerturb int) (pProject, []string) {
 		p.Controllers = append(p.Controllers, c)
 	}
 	p.Types = append(p.Types, extraTypes...)
+	if nPerturb == 0 && r.Chance(1, 4) {
+		// a controller in a package that is only IMPORTED (for a type), not matched by any glob
+		p.Config.Globs = []string{"./ctl/*.go"}
+		p.Types = append(p.Types, pType{Kind: "struct", Name: "Thing", Pkg: "other", File: "things.go", Fields: []pField{{Name: "A", Type: "string", Tag: `json:"a"`}}})
+		p.Controllers = append(p.Controllers, pController{Name: "SubCtl", Pkg: "other", File: "things.go", Unglobbed: true,
+			Annots: []pAnnot{{Name: "Tag", Value: "Sub"}, {Name: "Route", Value: "/sub"}},
+			Methods: []pMethod{{Name: "Ping", File: "things.go", Results: []string{"error"}, Annots: []pAnnot{{Name: "Method", Value: "GET"}, {Name: "Route", Value: "/ping"}}}}})
+		m0 := &p.Controllers[0].Methods[0]
+		m0.Results = []string{"other.Thing", m0.Results[len(m0.Results)-1]}
+	}
 	p.Config.EnumValidator = r.Chance(1, 3)
 	p.GroupParams = r.Chance(1, 3)
 	if p.GroupParams {
